@@ -86,11 +86,15 @@ class EconomicsCalculate(Contract):
     inline_callees = ("geophires_x/Economics.py::Economics._calculate_derived_outputs",)
     assumptions = (
         "Economics.Calculate: add-on and S-DAC-GT sub-calculations are switched off in these units "
-        "(DoAddOnCalculations = DoSDACGTCalculations = False); their effect is covered by the EconomicsAddOns contract",
+        "(DoAddOnCalculations = DoSDACGTCalculations = False); EconomicsAddOns.Calculate has its own contract "
+        "(contracts/c04_addons.py), the S-DAC-GT sub-calculation is not under contract",
         "Economics.Calculate precondition: 0 <= PTC duration <= plant lifetime (the property's quantifier; a longer "
         "duration indexes past the price array), construction years >= 1, lifetime >= 1, every annual series has one "
         "entry per operating year",
         "pint unit conversions inside Economics.Calculate use the real registry's factors (A3)",
+        "ASSUMED contracts on dependencies (not verified, no clause beyond the result type): "
+        "calculate_cost_of_non_vertical_section returns a real, calculate_total_drilling_lengths_m returns reals - the "
+        "lateral-section cost and drilled lengths are 'whatever the code computes' in the roll-up clauses",
     )
 
     def configs(self):
@@ -216,7 +220,8 @@ class EconomicsCalculate(Contract):
         X = EconomicsCalculate
         j = Floor(pb)     # the year the reported payback lies in (j <= pb < j+1)
         return {"witness": Or(pb == 0.0, And(j >= 1, j < i, X.crossing(cum, j))),
-                "none_so_far": Implies(ForAll(1, i, lambda k: Not(X.crossing(cum, k))), pb == 0.0)}
+                "none_so_far": Implies(ForAll(1, i, lambda k: Not(X.crossing(cum, k))), pb == 0.0),
+                "zero_only_if_none_so_far": Implies(pb == 0.0, ForAll(1, i, lambda k: Not(X.crossing(cum, k))))}
 
     def lemmas(self):
         import z3
@@ -363,6 +368,9 @@ class EconomicsCalculate(Contract):
             pb != 0.0, And(jpb >= 1, jpb < n, turn(jpb)))
         out["c04_payback_not_available_when_never_turning_positive"] = Implies(
             ForAll(1, n, lambda j: Not(turn(j))), pb == 0.0)
+        # ... and ONLY then: a series that does turn positive has a reported payback period
+        out["c04_payback_not_available_only_when_never_turning_positive"] = Implies(
+            pb == 0.0, ForAll(1, n, lambda j: Not(turn(j))))
 
         return out
 
